@@ -43,7 +43,7 @@ def tla_bool(b):
 
 
 def cfg_text(sc, switches, faults=True, max_ops=5, prune_batch=1, mbt=False, invariants=True, max_h=None, max_ver=None,
-             prune=True):
+             prune=True, scripts=None):
     c = dict(SCEN[sc])
     if max_h:
         c["MaxH"] = max_h
@@ -57,7 +57,9 @@ def cfg_text(sc, switches, faults=True, max_ops=5, prune_batch=1, mbt=False, inv
              "  EnableFaults = %s" % tla_bool(faults), "  EnablePrune = %s" % tla_bool(prune)]
     for s in SWITCHES:
         lines.append("  %s = %s" % (s, tla_bool(switches[s])))
-    if mbt:
+    if scripts:
+        lines += ["  Scripts <- %s" % scripts, "INIT ScriptInit", "NEXT ScriptNext"]
+    elif mbt:
         lines += ["INIT MBTInit", "NEXT MBTNext"]
     else:
         lines += ["INIT Init", "NEXT Next", "VIEW view"]
@@ -129,6 +131,27 @@ def run(ctx):
     repaired = {s: True for s in SWITCHES}
     ctx.coverage["model_switches"] = faithful
     vlib.log("model switches (from known_findings.json; FALSE = listed known and reproduced): %s" % faithful)
+
+    # ---- directed behaviours (spec/chain/CrashScripts.tla): fixed operation sequences run through the
+    # faithful model, replayed on the real node in every run whatever the simulation samples:
+    # repeated failed revert commits across the window boundary (regression of a false alarm of the
+    # model: block numbers below the scenario exist) and faults in the lazy initialisation's own
+    # delete under every operation that can trigger it, on both wirings of the initialiser
+    for sc, name, n, plains in (("lo", "ScriptsLo", 2, [False]), ("mid", "ScriptsMid", 8, [True, False])):
+        txt, c = cfg_text(sc, faithful, faults=True, max_ops=12, scripts=name)
+        bs = ctx.tlc_simulate("chain", "CrashScripts.tla", "scripts.cfg", depth=40 * n, seed=1,
+                              files={"scripts.cfg": txt}, timeout=600)
+        if len(bs) != n:
+            raise vlib.Broken("CrashScripts %s: %d of %d directed behaviours were generated (a step of a script is not "
+                              "enabled in the model)" % (name, len(bs), n))
+        for plain in plains:
+            res = engine(ctx, binary, "TestCrashConform",
+                         {"consts": c, "behaviours": bs, "newState": [False, True] if thorough or sc == "mid" else [False],
+                          "backends": ["memory"], "pruneBatch": 1, "plain": plain}, timeout=900)
+            ctx.absorb(res, "crash", "TestCrashConform")
+            vlib.log("engine TestCrashConform directed %s (%s wiring): %d behaviours, %.0fs" % (
+                name, "archive" if plain else "pruning", len(bs), res["_wall_s"]))
+        ctx.coverage["directed_behaviours"] = ctx.coverage.get("directed_behaviours", 0) + n * len(plains)
 
     # ---- 1. TLC on the specification (repaired design)
     ctx.tlc_check("chain", "MCCrash.tla", "Crash_quick.cfg", timeout=900)
@@ -212,7 +235,7 @@ def run(ctx):
     # ---- archive-node wiring (core.InitializeRunningEventFilter): behaviours of the model without the
     # pruner (its weight goes to graceful stops, so that lazy initialisations with a snapshot to
     # consume - and faults in exactly that mutation - are frequent), from genesis
-    n_arch = {"mid": (120, 15)} if thorough else {"mid": (30, 2)}
+    n_arch = {"mid": (120, 15)} if thorough else {"mid": (30, 0)}
     arch_state = [False, True] if thorough else [False]
     for i, (sc, (nc, ne)) in enumerate(n_arch.items()):
         txt, c = cfg_text(sc, faithful, faults=True, mbt=True, prune=False)
@@ -229,6 +252,8 @@ def run(ctx):
             ctx.absorb(res, "crash", "TestCrashConform")
             vlib.log("engine TestCrashConform %s archive wiring %s: %d behaviours (%d steps with a fault inside the lazy "
                      "initialisation), %.0fs" % (sc, be, len(part), ninit, res["_wall_s"]))
+        if not ne:
+            continue
         txt, c = cfg_text(sc, faithful, faults=False, mbt=True, prune=False)
         bs = ctx.tlc_simulate("chain", "CrashMBT.tla", "ops_arch.cfg", depth=12 * ne, seed=ctx.seed * 100 + 80 + i,
                               files={"ops_arch.cfg": txt}, timeout=900, max_behaviours=ne)
